@@ -670,7 +670,7 @@ def retry(ctx: Ctx) -> None:
     ctx.ob(p, p.node, not loops and not rr, "the process future factory adds no retry loop of its own (one attempt per submission)", sel="retry:processes")
 
 
-@rule("MAP-DRAIN-1", props=["C07", "C08"], floor=2)
+@rule("MAP-DRAIN-1", props=["C07", "C08", "C19"], floor=2)
 def map_drain(ctx: Ctx) -> None:
     """the parallel map ends normally only when `pending` is empty: no break/return inside
     the main loop, results yielded only from the finished batch"""
